@@ -6,7 +6,7 @@ Import ListNotations.
 From CXV Require Import Gen.TokTy Parse.Balanced Parse.BalancedThms Parse.Declarator Parse.DeclSpec Parse.DeclThms Parse.DeclPins.
 From CXV Require Gen.PinsC01.
 From CXV Require Import Parse.PQName Parse.Using Parse.EnumDecl Parse.ParamsX Parse.DeclStmt Parse.TemplateStmt.
-From CXV Require Import Parse.Members Parse.MethodTail Parse.MemberStmt Parse.OpName Parse.ConvOp Parse.OperatorMember Parse.OperatorFn.
+From CXV Require Import Parse.Members Parse.MethodTail Parse.MemberStmt Parse.OpName Parse.ConvOp Parse.OperatorMember Parse.OperatorFn Parse.MethodImpl.
 From CXV Require Import Parse.DispatchLang Gen.Dispatch Parse.DispatchExternThms Parse.DispatchInlineThms.
 From CXV Require Import Parse.EnumList Parse.Specs Parse.VarStmt Parse.FnTail Parse.Init Parse.Members Parse.Template.
 From CXV Require Import Parse.Fold Parse.FoldThms Parse.FoldPlace.
@@ -287,6 +287,21 @@ Theorem operator_function_decodes_partial : forall pre post b ls o ps va th ne n
      (DOk (mkOpF m (op_toks o) t ps va (tail_of th ne en), rest)).
 Proof. exact op_fn_roundtrip. Qed.
 
+(* Method definitions outside their class: `spec* T spec* <pointer / reference operators> A::B::m ( params ) quals { body }` is one
+   method definition with exactly the name segments written, the return type, parameters and qualifier set written, the body
+   skipped exactly and the statement ended by it *)
+Theorem out_of_class_method_definition_decodes_partial : forall pre post b ls n q ps va quals soup rest,
+  forallb spec_kw pre = true -> forallb spec_kw post = true ->
+  has T_explicit (pre ++ post) = false -> has T_virtual (pre ++ post) = false -> has T_mutable (pre ++ post) = false ->
+  all_pfx ls = true -> legalL KB ls = true -> q <> [] ->
+  layer_ok (LFn ps va) -> Forall mq_ok quals -> bal tk kty T_LIT_123 T_LIT_125 soup ->
+  let m := apply_kws (pre ++ post) mods0 in
+  let t := wrap (TBase b (m_const m) (m_volatile m)) ls in
+  ev (fun f => method_impl_stmt f (kw_toks pre ++ nm_tok b :: kw_toks post ++ P ls [] ++ qual_toks n q ++
+                                   ktok LP :: params_toks ps va ++ ktok RP :: flat_map mq_toks quals ++ mend_toks (MeBody soup) ++ rest))
+     (DOk (mkMI m (SName n :: map SName q) t ps va (apply_end (MeBody soup) (quals_of quals)), rest)).
+Proof. exact method_impl_roundtrip. Qed.
+
 (* What a `template` statement is handed on to (_parse_template): behind ONE header
    the next token selects the continuation -- `using`, `friend`, `concept`, a
    requires-clause, or (any other token) a declaration that starts with that
@@ -386,6 +401,7 @@ Print Assumptions inline_namespace_goes_to_the_namespace_parser.
 Print Assumptions other_inline_is_a_declaration.
 Print Assumptions typedef_goes_to_the_declaration_parser.
 Print Assumptions operator_function_decodes_partial.
+Print Assumptions out_of_class_method_definition_decodes_partial.
 Print Assumptions template_statement_one_header_partial.
 Print Assumptions template_statement_many_headers_partial.
 Print Assumptions explicit_instantiation_consumes_nothing.
